@@ -295,7 +295,7 @@ def run(F, rep):
     if not getattr(rep, 'nested', False):
         import core
         import c03
-        c03.run(F, core.Borrowed(rep, only={'C03.S1', 'C03.S2', 'C03.S3'}))
+        core.borrow(F, rep, c03, only={'C03.S1', 'C03.S2', 'C03.S3'})
 
     # ------------------------------------------------------------------ every element of a collection is handled
     from engines import rule_visit_all
